@@ -62,7 +62,7 @@ H_WellFormed ==
   /\ \A r \in R : S(Obs[r].ents) \subseteq DOMAIN UU
   /\ \A r \in R : \A x \in S(Obs[r].ents) : UU[x].seen
   /\ ev.chain => (l > 1 /\ Rec(l - 1).sid = ev.sid /\ Rec(l - 1).post = ev.pre)
-  /\ ~ev.panic \/ ev.op \in {"JB", "J", "I", "A"}
+  /\ ~ev.panic \/ ev.op \in {"JB", "J", "I", "A", "AF"}
   /\ ~ev.herr
 
 -----------------------------------------------------------------------------
@@ -238,6 +238,11 @@ C17_Recoverable ==
           /\ S(rc.heads) = S(o.heads)
           /\ rc.lid = o.lid
           /\ StrictOn(UU, Fn, S(o.ents)) => rc.values = o.values]_vars
+\* an append whose block the store refused returns an error and leaves the log as it was
+C17_FailedWriteLeavesLog ==
+  [][IsStep /\ ev.op = "AF" =>
+       /\ ev.err # "" /\ ev.writes = <<>> /\ ev.ret = 0
+       /\ post[ev.r].ents = pre[ev.r].ents /\ post[ev.r].heads = pre[ev.r].heads /\ post[ev.r].values = pre[ev.r].values]_vars
 \* an empty log cannot be published; a non-empty one can
 C17_PublishResult ==
   [][IsStep /\ ev.op = "P" => ((ev.err = "") = (pre[ev.r].heads # <<>>)) /\ post = pre]_vars
@@ -291,6 +296,12 @@ M_Append ==
                      /\ S(post[r].nidx) = S(pre[r].nidx) \cup S(e.next)
                 ELSE /\ post[r].ents = pre[r].ents /\ post[r].rawheads = pre[r].rawheads
                      /\ post[r].nidx = pre[r].nidx]_vars
+
+M_AppendWriteFault ==
+  [][IsStep /\ ev.op = "AF" =>
+       LET r == ev.r  p == AppendPlan(UU, Fn, Abs(pre[r]), ev.n) IN
+       /\ post[r].clk = p.t /\ post[r].ents = pre[r].ents /\ post[r].rawheads = pre[r].rawheads
+       /\ post[r].nidx = pre[r].nidx]_vars
 
 M_Join ==
   [][IsStep /\ ev.op \in {"J", "JB"} =>
